@@ -16,6 +16,15 @@
 (***************************************************************************)
 EXTENDS Integers, FiniteSets
 
+(* The alternative set of the variant type under test (4 alternatives, numbered 0..3):          *)
+(*   TrackedAlts  alternatives whose objects emit lifetime events (instrumented payload types); *)
+(*                the others are trivial types (int, trivially copyable structs) without events *)
+(*   NTMAlts      alternatives with is_nothrow_move_constructible / _assignable                  *)
+(* set "mixed": <int, NT, TM, TM2>  TrackedAlts = {1,2,3}, NTMAlts = {0,1}                      *)
+(* set "triv" : <int, Tv1, Tv2, Tv3> all trivially copyable / destructible: {} , {0,1,2,3}       *)
+(* set "td"   : <TD, NT, TM, int>   alternative 0 has a throwing default constructor: {0,1,2}, {1,3} *)
+CONSTANTS TrackedAlts, NTMAlts
+
 VARIABLES nid,    \* highest id handed out so far: ids 1..nid have been constructed
           live,   \* ids constructed and not yet destroyed
           obj     \* obj[id] = [alt, val, home] for id \in live
@@ -25,8 +34,7 @@ lvars == <<nid, live, obj>>
 MOVED == -1       \* value of a moved-from payload object
 TEMP  == 0        \* home of an object outside the variants' storage (argument, temporary, local)
 
-TrackedAlts == {1, 2, 3}           \* alternatives whose objects emit lifetime events (0 is a plain int)
-NoThrowMove(a) == a \in {0, 1}     \* is_nothrow_move_constructible / assignable
+NoThrowMove(a) == a \in NTMAlts    \* is_nothrow_move_constructible / assignable
 (* element operations that may throw (they consult the fault fuse) *)
 CanThrow(a, kind) == /\ a \in TrackedAlts
                      /\ \/ kind \in {"value", "copy"}
